@@ -683,6 +683,7 @@ func analyzePubs(ep *Episode, allPubs []*sim.Pub, final bool) *pubAnalysis {
 		if p.RetSeq != 0 && p.Err != nil {
 			if pi.save != nil {
 				a.violate("C01", "refused-publish-persisted", "publish %d returned %q yet its Save took effect", p.N, p.Err)
+				a.violate("C02", "refused-publish-stays-resumable", "publish %d returned %q yet its record stays in the Persistence: a restart resumes a message that was never accepted", p.N, p.Err)
 			}
 			for _, ci := range onWire[p.N] {
 				a.violate("C14", "refused-publish-on-wire", "publish %d returned %q yet conn %d carries it", p.N, p.Err, ci)
